@@ -235,6 +235,9 @@ ASSERTS = {"notNotified", "expectedLock", "expectedRead", "expectedWrite"}
 
 SIGNATURES = {
     # F4: a store is left unordered with an RMW although it is ordered after the store the RMW read
+    # F27: two threads with a SeqCst fence: the fence order is treated as happens-before (a race hidden by it)
+    "seqcst-fence-order-as-hb": lambda p, kind, o: kind == "missed_failure" and verdict(o).startswith("causality")
+    and sum(1 for ops in threads_of(p) if any(x[0] == "fence" and x[1] == "sc" for x in ops)) >= 2,
     "rmw-atomicity": lambda p, kind, o: kind == "forbidden" and successful_rmw_vs_write(p, o),
     # F3: pointwise clock order is not the modification order (a read raises an old store's clock)
     "coherence-clock-order": lambda p, kind, o: kind == "forbidden" and three_writes_two_threads(p),
